@@ -30,10 +30,12 @@ def gen_case(rng, i, tier):
     elif kind == "periodic":
         op["gamma"] = rng.choice(["1", "1/2", "1/2", "3/4"])
         op["period"] = rng.randint(2, 4) if op["gamma"] == "1" else rng.randint(1, 4)
-        op["eps"] = rng.choice(["1/2", "1/16", "4", "1/1024"])
+        # 1000 exceeds every possible period-span here (rewards <= 10, period <= 4): the first sweep at which the measure exists, n = period,
+        # is then the documented stopping point
+        op["eps"] = rng.choice(["1/2", "1/16", "4", "1/1024", "1000", "1000"])
         op["clear"] = rng.randint(0, 1)
     else:
-        op["gamma"] = rng.choice(["1/2", "1/2", "3/4", "1"])
+        op["gamma"] = rng.choice(["1/2", "1/2", "3/4", "1", "0"])
         op["eps"] = rng.choice(["1/2", "1/16", "4", "1/1024", "32"])
         op["test"] = rng.choice(["span", "max_diff"])
     if kind == "pi":
@@ -183,7 +185,7 @@ def run(tier, seed):
                 cur = core.plist(di["values"])
                 if prev is not None and di.get("sweeps") == "1":
                     g_, e_ = Fraction(new["gamma"]), Fraction(new["eps"])
-                    thr_ = e_ if g_ == 1 else e_ * (1 - g_) / g_
+                    thr_ = e_ if g_ in (0, 1) else e_ * (1 - g_) / g_     # gamma = 0: one sweep is exact, the repaired code uses epsilon
                     meas = oracle.span(cur, prev) if new.get("test", "span") == "span" else oracle.maxdiff(cur, prev)
                     slack = session.envelope(max([abs(x) for x in cur] + [1]), t.E, 1)
                     res.count("stopping-clause-checked")
